@@ -6,6 +6,7 @@ import (
 	"path/filepath"
 	"sort"
 	"strings"
+	"sync"
 	"time"
 
 	"github.com/gopacket/gopacket"
@@ -22,7 +23,10 @@ import (
 
 type (
 	Builder struct {
-		snapshots        []*snapshot
+		snapshots []*snapshot
+		// mu guards knownPcaps and packetCount: FromPcap extends them on the
+		// import goroutine while KnownPcaps/PacketCount are called elsewhere.
+		mu               sync.Mutex
 		knownPcaps       []*pcapmetadata.PcapInfo
 		packetCount      uint
 		indexDir         string
@@ -551,10 +555,12 @@ outer:
 		b.snapshotFilename = filepath.Base(newSnapshotFilename)
 	}
 
+	b.mu.Lock()
 	b.knownPcaps = append(b.knownPcaps, newPcapInfos...)
 	for _, pi := range newPcapInfos {
 		b.packetCount += pi.PacketCount
 	}
+	b.mu.Unlock()
 	b.snapshots = newSnapshots
 
 	outputFiles := []string{}
@@ -566,9 +572,13 @@ outer:
 }
 
 func (b *Builder) PacketCount() uint {
+	b.mu.Lock()
+	defer b.mu.Unlock()
 	return b.packetCount
 }
 
 func (b *Builder) KnownPcaps() []*pcapmetadata.PcapInfo {
+	b.mu.Lock()
+	defer b.mu.Unlock()
 	return b.knownPcaps
 }
